@@ -11,7 +11,44 @@ func runC11(c *core.Ctx) {
 	}
 }
 
+func runC10(c *core.Ctx) {
+	switch c.Scenario {
+	case "dense-views":
+		RunViews(c, false)
+	case "sparse-views":
+		RunViews(c, true)
+	default:
+		panic("unknown scenario " + c.Scenario)
+	}
+}
+
 func init() {
+	core.Register(&core.Property{
+		ID:     "C10",
+		Level:  "exploration",
+		Engine: "B: shared-storage world simulator (views)",
+		Scenarios: []core.Scenario{
+			{Name: "dense-views", Weight: 1},
+			{Name: "sparse-views", Weight: 1},
+		},
+		Run:      runC10,
+		StepUnit: "operations by handles (root, Slice/T/ConstSlice views nested to depth 3) on one shared storage",
+		Rule: "one run = one root matrix (0..5 x 0..5, drawn element type, dense or sparse) and a seeded history of <=40 steps in which the tape picks a handle (root or one of <=5 live views: Slice, ConstSlice, T, nested) and an operation (element write, ~20 mutating operations, ~25 reading/operand/iteration/print/JSON/export operations, new view, Tip). Oracle 1: index-map model of which storage element each handle element denotes, all handles read back after every step (values; derivatives handle-vs-root for real types). Oracle 2: the same operation applied to an independent deep copy must give the same result and contents. Non-trivial = at least 3 operations executed on a view. Distinct = hash of the sequence of storage-model states and handle shapes.",
+		Assumptions: []string{
+			"operands never share storage with the receiver (aliasing is C08)",
+			"Tip() is only applied to the root after all views were dropped (the property specifies it for a matrix that owns its whole storage)",
+			"AsVector order is unspecified by the library: compared as a multiset",
+			"a defect of the plain container that shows identically on the deep copy is not reported here (it is not a view defect)",
+		},
+		RealCode:     []string{"autodiff Dense*Matrix / Sparse*Matrix (9 element types): Slice, ConstSlice, T, Tip, iterators, arithmetic, Row/Col/Diag, AsVector, String/Table, MarshalJSON/UnmarshalJSON, Export/Import"},
+		Stubs:        []string{"none (reference: index map over a flat []float64 + deep copy built through At().Set())"},
+		Caps:         map[string]int{"ops_per_run": 40, "rows": 5, "cols": 5, "view_depth": 3, "live_handles": 6},
+		QuickRuns:    30000,
+		ThoroughRuns: 3000000,
+		Probes: []core.FindingProbe{
+			{ID: "C10-F2", Run: ProbeSparseT},
+		},
+	})
 	core.Register(&core.Property{
 		ID:     "C11",
 		Level:  "exploration",
